@@ -87,11 +87,10 @@ func c19LoadCheck(c *Ctx, cs c19LoadCase) *Failure {
 		}
 		defer cleanup()
 		roots[i] = root
-		seq[i] = in.loadAt(root, false, 0)
-		if seq[i].Panic != nil {
-			return seq[i].Panic
-		}
 	}
+	// the concurrent rounds come first: a load leaves traces in package-level state (the list of files
+	// already warned about), so a sequential load beforehand would hide races on first sight of a file
+	all := make([][]loadResult, cs.Rounds)
 	for round := 0; round < cs.Rounds; round++ {
 		start := make(chan struct{})
 		results := make([]loadResult, len(cs.Assign))
@@ -112,6 +111,15 @@ func c19LoadCheck(c *Ctx, cs c19LoadCase) *Failure {
 		case <-time.After(60 * time.Second):
 			return failf("c19:concurrent-loads-stuck", "concurrent loads did not finish within 60s")
 		}
+		all[round] = results
+	}
+	for i, in := range cs.Inputs {
+		seq[i] = in.loadAt(roots[i], false, 0)
+		if seq[i].Panic != nil {
+			return seq[i].Panic
+		}
+	}
+	for _, results := range all {
 		for g, idx := range cs.Assign {
 			idx = idx % len(cs.Inputs)
 			r, s := results[g], seq[idx]
